@@ -148,14 +148,19 @@ async def zip(
     """
     if not iterables:
         return
-    aiters = (*(aiter(it) for it in iterables),)
-    del iterables
+    # the iterators are owned as soon as they are obtained: they are closed even
+    # if a later iterable cannot be iterated
+    owned: "_sync_builtins.list[AsyncIterator[Any]]" = []
     try:
+        for iterable in iterables:
+            owned.append(aiter(iterable))
+        del iterables, iterable
+        aiters = (*owned,)
         inner = _zip_inner(aiters) if not strict else _zip_inner_strict(aiters)
         async for items in inner:
             yield items
     finally:
-        await close_all(aiters)
+        await close_all(owned)
 
 
 async def _zip_inner(
